@@ -81,7 +81,7 @@ class C19(Prop):
                     'stub': ['io.FileIO subclass (counts / tears raw writes)', 'tempfile.NamedTemporaryFile re-implemented over the seam with deterministic names', 'os.rename/unlink/chmod/makedirs wrappers']}
     PROBES = ['kill-during-descriptor-copy', 'descriptor-parseable-after-kill', 'kill-during-data-copy', 'kill-between-last-data-file-and-descriptor',
               'torn-write-landed', 'sweep-complete', 'descriptor-unparseable-after-kill', 'multi-write-descriptor']
-    TIERS = {'quick': dict(runs=1200, wall=100, run_wall=90),
+    TIERS = {'quick': dict(runs=1200, wall=100, run_wall=300),
              'thorough': dict(runs=2400, wall=1500, run_wall=900)}
     SHRINK_FROZEN = ('fields',)
 
